@@ -31,6 +31,34 @@ EXTENDS BV, Sequences, Naturals, Integers, FiniteSets, TLC
 Range(s) == {s[i] : i \in DOMAIN s}
 
 (*------------------------------------------------------------------------*)
+(* 0. 64-bit arithmetic on byte tuples, non-recursive                      *)
+(*------------------------------------------------------------------------*)
+(* BV.tla's operators are recursive and slow in TLC; trace validation runs *)
+(* these on every unwind row.  MCConvertCfi's `Lemma` checks each of them  *)
+(* against BV.tla on a boundary grid.                                      *)
+L16(a, j) == a[2 * j - 1] + 256 * a[2 * j]                  \* 16-bit limb j \in 1..4
+Pack4(l1, l2, l3, l4) == <<l1 % 256, l1 \div 256, l2 % 256, l2 \div 256, l3 % 256, l3 \div 256, l4 % 256, l4 \div 256>>
+Add64c(a, b, cin) ==
+    LET s1 == L16(a, 1) + L16(b, 1) + cin
+        s2 == L16(a, 2) + L16(b, 2) + s1 \div 65536
+        s3 == L16(a, 3) + L16(b, 3) + s2 \div 65536
+        s4 == L16(a, 4) + L16(b, 4) + s3 \div 65536
+    IN [v |-> Pack4(s1 % 65536, s2 % 65536, s3 % 65536, s4 % 65536), c |-> s4 \div 65536]
+Not64(a) == <<255 - a[1], 255 - a[2], 255 - a[3], 255 - a[4], 255 - a[5], 255 - a[6], 255 - a[7], 255 - a[8]>>
+Zero64 == <<0, 0, 0, 0, 0, 0, 0, 0>>
+Add64(a, b) == Add64c(a, b, 0).v
+Sub64(a, b) == Add64c(a, Not64(b), 1).v
+Neg64(a)    == Add64c(Not64(a), Zero64, 1).v
+ULt64(a, b) ==
+    LET ah == a[8] * 65536 + a[7] * 256 + a[6]
+        bh == b[8] * 65536 + b[7] * 256 + b[6]
+        am == a[5] * 65536 + a[4] * 256 + a[3]
+        bm == b[5] * 65536 + b[4] * 256 + b[3]
+        al == a[2] * 256 + a[1]
+        bl == b[2] * 256 + b[1]
+    IN ah < bh \/ (ah = bh /\ (am < bm \/ (am = bm /\ al < bl)))
+
+(*------------------------------------------------------------------------*)
 (* 1. Entries and attributes                                               *)
 (*------------------------------------------------------------------------*)
 (* Attributes the writer regenerates or re-encodes; their value is layout, *)
@@ -85,14 +113,14 @@ LineHeaderMeaning(h) == [present |-> h.present, dirs |-> Range(h.dirs), files |-
 RowBody(r) == [cfa |-> r.cfa, rules |-> r.rules, args |-> r.args]
 
 (* offset of address a from the FDE start, modulo 2^64 *)
-Off(a, start) == Sub(a, start)
+Off(a, start) == Sub64(a, start)
 
 (* clip one row to [0, len): <<lo, hi>> or <<>> when nothing remains *)
 Clip(r, start, len) ==
     LET lo == Off(r.start, start)
         hi == Off(r.end, start) IN
-    IF ~ULt(lo, len) \/ ~ULt(lo, hi) THEN <<>>
-    ELSE <<[lo |-> lo, hi |-> IF ULt(len, hi) THEN len ELSE hi, body |-> RowBody(r)]>>
+    IF ~ULt64(lo, len) \/ ~ULt64(lo, hi) THEN <<>>
+    ELSE <<[lo |-> lo, hi |-> IF ULt64(len, hi) THEN len ELSE hi, body |-> RowBody(r)]>>
 
 RECURSIVE MergeInto(_, _)
 MergeInto(acc, rest) ==
